@@ -53,6 +53,10 @@ func weakScalar(r *h.Rand) interface{} {
 		return r.Bool()
 	case 2:
 		return float64(r.Range(1, 99)) + 0.5
+	case 3:
+		// text that looks like syntax of one of the formats (comment openers and closers, a comma before a bracket,
+		// a hash, a key separator): inside a string it is data in all three
+		return []string{"pkg/**/*.go", "a/*b", "x*/y", "[a,b,]", "{k:v,}", "//c", "#h", "a=b", "k:v", "dist/*,*/"}[r.Intn(10)] + fmt.Sprint(r.Intn(10))
 	default:
 		return fmt.Sprintf("v%d", r.Intn(1000))
 	}
@@ -154,7 +158,7 @@ func genC16(r *h.Rand) c16cfg {
 			t.Set("exportAs", "EXPORTED_"+name)
 		}
 		if r.Chance(40) {
-			t.Set("description", "does "+name)
+			t.Set("description", "does "+name+[]string{"", " /* quietly */", " (see docs/**/*.md, */README)", " [fast,]", " // twice", " # not a comment"}[r.Intn(6)])
 		}
 		if r.Chance(15) {
 			t.Set("name", "renamed-"+name)
